@@ -494,7 +494,8 @@ def r3_collapse(program, folder, rep):
               construct="subtree stores %d/%d" % (len(sub_st), others),
               node=add,
               fail="a child sub-tree is overwritten or released: selections "
-                   "held further down (for other cores) are lost")
+                   "held further down (for other cores) are lost",
+              positive=bool(others or dels))
     # (levels run 0..3 - checked by R2 - so ``level >= 3`` is ``level == 3``)
     okl = any(lf_ in [(plain(t), p) for t, p in A.all_facts(s_[0])]
               for s_ in sets for lf_ in (
